@@ -120,3 +120,54 @@ def resolve(ref_: str):  # noqa: ANN201
 
     mod, name = ref_.split(":")
     return getattr(importlib.import_module(mod), name)
+
+
+# weighted sums, arities 0..6 (dependency-graph workloads)
+def w0() -> float:
+    return 0.3
+
+
+def w1(a: float) -> float:
+    return 0.3 + 0.17 * a
+
+
+def w2(a: float, b: float) -> float:
+    return 0.3 + 0.17 * a + 0.34 * b + 0.05 * a * b
+
+
+def w3(a: float, b: float, c: float) -> float:
+    return 0.3 + 0.17 * a + 0.34 * b + 0.51 * c + 0.05 * a * c
+
+
+def w4(a: float, b: float, c: float, d: float) -> float:
+    return 0.3 + 0.17 * a + 0.34 * b + 0.51 * c + 0.68 * d + 0.05 * a * d
+
+
+def w5(a: float, b: float, c: float, d: float, e: float) -> float:
+    return 0.3 + 0.17 * a + 0.34 * b + 0.51 * c + 0.68 * d + 0.85 * e + 0.05 * a * e
+
+
+def w6(a: float, b: float, c: float, d: float, e: float, f: float) -> float:
+    return 0.3 + 0.17 * a + 0.34 * b + 0.51 * c + 0.68 * d + 0.85 * e + 1.02 * f + 0.05 * a * f
+
+
+W = [w0, w1, w2, w3, w4, w5, w6]
+
+
+def sw1_2(a: float) -> tuple[float, float]:
+    return 0.1 + 0.2 * a, 0.4 - 0.1 * a
+
+
+def sw2_2(a: float, b: float) -> tuple[float, float]:
+    return 0.1 + 0.2 * a + 0.3 * b, 0.4 - 0.1 * a * b
+
+
+def sw3_2(a: float, b: float, c: float) -> tuple[float, float]:
+    return 0.1 + 0.2 * a + 0.3 * b - 0.1 * c, 0.4 - 0.1 * a * c + 0.05 * b
+
+
+def sw0_2() -> tuple[float, float]:
+    return 0.6, 0.9
+
+
+SW = [sw0_2, sw1_2, sw2_2, sw3_2]
